@@ -154,7 +154,8 @@ func (m *vRateMap) vExpectedDefault(a AssetType, o OperationType) int64 {
 // {BTC, LBTC} and operation in {SwapIn, SwapOut}: GetRate/GetDefaultRate never fail and select
 // peer-specific -> stored default -> built-in default (0/2000/0/1000 ppm); the returned rate carries
 // the queried asset/operation; Setting.Compute(peer, asset, op, amt) is PPM.Compute of exactly that
-// rate for every uint64 amount (arithmetic of PPM.Compute: the H_C27_ppmCompute* entries).
+// rate for every uint64 amount (arithmetic of PPM.Compute: the H_C27_ppmCompute* entries; here
+// PPM.Compute is replaced by the injective tag vComputeTag).
 // Bounds: 2 stored peers + default row.
 func H_C27_settingSelection() {
 	m, s := vNewSetting(true)
@@ -174,9 +175,17 @@ func H_C27_settingSelection() {
 	zzverif.Assert(DefaultPremiumRate[a][o] == vBuiltin(a, o), "C27.builtin_defaults")
 
 	amt := zzverif.U64("amt_sat")
+	zzverif.Override("(*github.com/elementsproject/peerswap/premium.PPM).Compute", vComputeTag)
 	c, err := s.Compute(peer, a, o, amt)
 	zzverif.Assert(err == nil && c == NewPPM(want).Compute(amt), "C27.compute_uses_selected_rate")
 }
+
+// vComputeTag stands in for PPM.Compute (symbolic side only; natively the real Compute runs on both
+// sides of the comparison) in entries that check WHICH rate and amount Compute is applied to, not its
+// arithmetic (that is H_C27_ppmCompute*).  rate XOR amount is injective in the rate for a fixed
+// amount (and vice versa), so equality of two tags with the same amount holds exactly when the rates
+// are equal — stronger than comparing real premiums, and free of the 128-bit case split of Compute.
+func vComputeTag(p *PPM, amtSat uint64) int64 { return p.ppmValue ^ int64(amtSat) }
 
 // vSpec is the specification map the history entries compare the Setting against.
 type vSpec struct {
